@@ -17,6 +17,10 @@ Types == {"i8", "u8", "i16", "u16", "i32", "u32", "i64", "u64"}
 SignedTypes == {"i8", "i16", "i32", "i64"}
 UnsignedTypes == Types \ SignedTypes
 
+(* "f @@ <<>>" makes TLC tabulate the function once instead of re-evaluating the body at every
+   application (TLC keeps [x \in S |-> e] as a closure) *)
+Tabulated(fn) == fn @@ <<>>
+
 RealBits == Tabulated([t \in Types |->
   CASE t \in {"i8", "u8"} -> 8 [] t \in {"i16", "u16"} -> 16
     [] t \in {"i32", "u32"} -> 32 [] OTHER -> 64])
@@ -37,9 +41,6 @@ SignedOf(T) == CASE T \in {"i8", "u8"} -> "i8" [] T \in {"i16", "u16"} -> "i16"
 (* 2^n for 0 <= n <= 30 (a constant function: evaluated once) *)
 RECURSIVE P2r(_)
 P2r(n) == IF n = 0 THEN 1 ELSE 2 * P2r(n - 1)
-(* "f @@ <<>>" makes TLC tabulate the function once instead of re-evaluating the body at every
-   application (TLC keeps [x \in S |-> e] as a closure) *)
-Tabulated(fn) == fn @@ <<>>
 P2 == Tabulated([n \in 0..30 |-> P2r(n)])
 
 Small(T) == Bits(T) <= 30   \* values of T are TLC integers
